@@ -1,7 +1,8 @@
 // C12: drive a real Potassco::TheoryData with an operation list (see coq/C12/Model.v, run_case).
 // Case: np probe_1..probe_np  ops...      Observation per op: exception class (0 = none), [visit output],
-// then for every probe id has/isNew/get of term and element, the atoms, currBegin offset and the number of
-// allocations the LIBRARY made through operator new/new[] that are still live.
+// then for every probe id has/isNew/get of term and element, the atoms, currBegin offset, the number of
+// allocations the LIBRARY made through operator new/new[] that are still live, and the mask of the walks over the public
+// iterator adaptors (TheoryElementIterator / TheoryTermIterator) that differed from the direct view (0 = all agree).
 // The global operator new/delete are replaced here (no hook in /repo): allocations made while g_lib is set
 // are recorded with their kind; a delete of the wrong kind aborts. malloc/free below stay ASan-instrumented.
 #include "common.h"
@@ -9,6 +10,7 @@
 #include <set>
 #include <algorithm>
 #include <cstring>
+#include <iterator>
 #include <potassco/theory_data.h>
 #include "rec.h"
 
@@ -84,6 +86,139 @@ static void elemRec(Obs& o, Id_t id, const TheoryElement& e) {
 	if (e.end() - e.begin() != (std::ptrdiff_t)e.size()) die("element size inconsistent");
 }
 
+// ---- the public iterator adaptors -----------------------------------------------------------------------------------
+// IteratorAdaptor<T, get> (TheoryElementIterator over an atom's elements, TheoryTermIterator over an element's terms and - through
+// the public constructor - over a compound term's arguments) is walked in every way the class offers over every item the harness
+// reads back or is handed by accept(); each walk is compared with the direct begin()/size() view of the same item.  The position
+// (raw()) is checked BEFORE anything is dereferenced, so that a walk that runs off the list is reported, not followed.
+// g_walk collects the mask of the walks that differed since the last dump (0 for a correct library: constant in the model;
+// props/C12.py WALK_BITS names the bits).
+enum { W_PREINC = 1, W_POSTINC = 2, W_PREDEC = 4, W_POSTDEC = 8, W_DEREF = 16, W_CMP = 32, W_COPY = 64, W_STD = 128 };
+static unsigned g_walk = 0;
+static const TheoryData* g_foreign = 0;   // a second (empty) store: iterators of different stores never compare equal
+
+struct ElemAcc {
+	static bool has(const TheoryData& d, Id_t id) { return d.hasElement(id); }
+	static const TheoryElement& get(const TheoryData& d, Id_t id) { return d.getElement(id); }
+};
+struct TermAcc {
+	static bool has(const TheoryData& d, Id_t id) { return d.hasTerm(id); }
+	static const TheoryTerm& get(const TheoryData& d, Id_t id) { return d.getTerm(id); }
+};
+// *it / it-> give the very object getElement / getTerm gives for the id under the iterator - or fail the same way (logic_error)
+template <class Acc, class It> static bool derefOk(const TheoryData& d, const It& it, Id_t id) {
+	if (*it.raw() != id || &it.theory() != &d) return false;
+	if (Acc::has(d, id)) {
+		try {
+			const typename It::value_type& x = *it;
+			return &x == &Acc::get(d, id) && it.operator->() == &x && it->size() == Acc::get(d, id).size() && it->begin() == x.begin();
+		}
+		catch (...) { return false; }
+	}
+	int threw = 0;
+	try { (void)*it; } catch (const std::logic_error&) { ++threw; } catch (...) {}
+	try { (void)it.operator->(); } catch (const std::logic_error&) { ++threw; } catch (...) {}
+	return threw == 2;
+}
+template <class Acc, class It> static unsigned walkAdaptor(const TheoryData& d, const It B, const It E, const Id_t* rb, std::size_t n) {
+	unsigned bad = 0;
+	const Id_t* re = rb + n;
+	if (B.raw() != rb || E.raw() != re || &B.theory() != &d || &E.theory() != &d) return W_COPY;   // begin()/end() themselves
+	auto cmp = [&](const It& it, const It& other, bool same) { if ((it == other) != same || (it != other) == same || (other == it) != same || (other != it) == same) bad |= W_CMP; };
+	// forwards, prefix ++
+	{ It it = B; std::size_t k = 0;
+		for (;; ++k) {
+			cmp(it, E, k == n); cmp(it, B, k == 0);
+			if (k == n) break;
+			if (!derefOk<Acc>(d, it, rb[k])) bad |= W_DEREF;
+			It& r = ++it;
+			if (&r != &it || it.raw() != rb + k + 1) { bad |= W_PREINC; break; }
+		}
+	}
+	// forwards, postfix ++
+	{ It it = B;
+		for (std::size_t k = 0; k != n; ++k) {
+			It old = it++;
+			if (old.raw() != rb + k || it.raw() != rb + k + 1 || &old.theory() != &d || &it.theory() != &d) { bad |= W_POSTINC; break; }
+			if (!derefOk<Acc>(d, old, rb[k])) bad |= W_DEREF;
+			cmp(old, it, false); cmp(it, E, k + 1 == n);
+		}
+	}
+	// backwards from end(), prefix --
+	{ It it = E;
+		for (std::size_t k = n; k != 0;) {
+			It& r = --it; --k;
+			if (&r != &it || it.raw() != rb + k) { bad |= W_PREDEC; break; }
+			if (!derefOk<Acc>(d, it, rb[k])) bad |= W_DEREF;
+			cmp(it, B, k == 0); cmp(it, E, false);
+		}
+	}
+	// backwards from end(), postfix --
+	{ It it = E;
+		for (std::size_t k = n; k != 0; --k) {
+			It old = it--;
+			if (old.raw() != rb + k || it.raw() != rb + k - 1 || &old.theory() != &d || &it.theory() != &d) { bad |= W_POSTDEC; break; }
+			if (!derefOk<Acc>(d, it, rb[k - 1])) bad |= W_DEREF;
+			cmp(old, it, false); cmp(it, B, k == 1); cmp(old, E, k == n);
+		}
+	}
+	// there and back again with the postfix forms (each step judged from where the iterator actually was)
+	if (n != 0) {
+		It it = B; const Id_t* at = it.raw(); It a = it++;
+		if (a.raw() != at || it.raw() != at + 1) bad |= W_POSTINC;
+		at = it.raw(); It b = it--;
+		if (b.raw() != at || it.raw() != at - 1) bad |= W_POSTDEC;
+		It jt = E; at = jt.raw(); It c = jt--;
+		if (c.raw() != at || jt.raw() != at - 1) bad |= W_POSTDEC;
+		at = jt.raw(); It e = jt++;
+		if (e.raw() != at || jt.raw() != at + 1) bad |= W_POSTINC;
+	}
+	// copy, assignment, swap, default construction, construction from the raw position
+	{ It a = B, b = E; It c(a); bool ok = c.raw() == rb && &c.theory() == &d;
+		c = b; ok = ok && c.raw() == re && &c.theory() == &d;
+		swap(a, b); ok = ok && a.raw() == re && b.raw() == rb && &a.theory() == &d && &b.theory() == &d;
+		It made(d, rb + n / 2); ok = ok && made.raw() == rb + n / 2 && &made.theory() == &d;
+		cmp(made, B, n / 2 == 0); cmp(made, E, n == 0);
+		if (g_foreign) { It f(*g_foreign, rb); ok = ok && f.raw() == rb && &f.theory() == g_foreign; cmp(f, B, false); It g(*g_foreign, re); cmp(g, E, false); cmp(f, g, n == 0);
+			It h(d, re); swap(f, h); ok = ok && f.raw() == re && &f.theory() == &d && h.raw() == rb && &h.theory() == g_foreign; cmp(f, E, true); cmp(h, B, false); }
+		It x, y; ok = ok && x.raw() == 0 && y.raw() == 0;
+		cmp(x, y, true); cmp(x, B, false); cmp(x, E, false);
+		y = B; cmp(y, B, true); ok = ok && y.raw() == rb;
+		if (ok) {   // (theory() of an iterator that wrongly kept the null store of a default-constructed one is not a reference to look at)
+			swap(x, y); ok = ok && x.raw() == rb && y.raw() == 0; cmp(x, B, true); cmp(y, B, false); cmp(y, It(), true);
+			if (x == B) ok = ok && &x.theory() == &d;
+		}
+		if (!ok) bad |= W_COPY;
+	}
+	// as a standard bidirectional iterator (only when the four steps above are sound: the algorithms would follow a bad walk)
+	if (!(bad & (W_PREINC | W_POSTINC | W_PREDEC | W_POSTDEC | W_CMP))) {
+		static_assert(std::is_same<typename std::iterator_traits<It>::iterator_category, std::bidirectional_iterator_tag>::value, "bidirectional");
+		bool ok = (std::size_t)std::distance(B, E) == n && std::next(B, (std::ptrdiff_t)n) == E && std::prev(E, (std::ptrdiff_t)n) == B;
+		It adv = B; std::advance(adv, (std::ptrdiff_t)n); ok = ok && adv == E; std::advance(adv, -(std::ptrdiff_t)n); ok = ok && adv == B;
+		std::reverse_iterator<It> rit(E), rend(B); std::size_t k = n;
+		for (; rit != rend && k != 0; ++rit) {
+			--k;
+			if (rit.base().raw() != rb + k + 1) { ok = false; break; }
+			if (Acc::has(d, rb[k])) { try { if (&*rit != &Acc::get(d, rb[k])) ok = false; } catch (...) { ok = false; } }
+		}
+		ok = ok && k == 0 && rit == rend;
+		std::size_t cnt = 0; for (It it = B; it != E && cnt <= n; it++) { ++cnt; } ok = ok && cnt == n;
+		cnt = 0; for (It it = E; it != B && cnt <= n; it--) { ++cnt; } ok = ok && cnt == n;
+		if (!ok) bad |= W_STD;
+	}
+	return bad;
+}
+static void walkAtom(const TheoryData& d, const TheoryAtom& a) {
+	g_walk |= walkAdaptor<ElemAcc, TheoryElementIterator>(d, Potassco::begin(d, a), Potassco::end(d, a), a.begin(), a.size());
+}
+static void walkElem(const TheoryData& d, const TheoryElement& e) {
+	g_walk |= walkAdaptor<TermAcc, TheoryTermIterator>(d, Potassco::begin(d, e), Potassco::end(d, e), e.begin(), e.size());
+}
+static void walkArgs(const TheoryData& d, const TheoryTerm& t) {
+	if (t.type() != Theory_t::Compound) return;
+	g_walk |= walkAdaptor<TermAcc, TheoryTermIterator>(d, TheoryTermIterator(d, t.begin()), TheoryTermIterator(d, t.end()), t.begin(), t.size());
+}
+
 struct Vis : TheoryData::Visitor {
 	Obs& o; Recorder rec; std::set<Id_t> seenT, seenE; TheoryData::VisitMode m;
 	Vis(Obs& out, TheoryData::VisitMode mode) : o(out), rec(out), m(mode) {}
@@ -91,18 +226,18 @@ struct Vis : TheoryData::Visitor {
 		Off off;
 		if (!seenT.insert(id).second) return;
 		{ Lib on; d.accept(t, *this, m); }
-		print(rec, id, t);
+		print(rec, id, t); walkArgs(d, t);
 	}
 	void visit(const TheoryData& d, Id_t id, const TheoryElement& e) override {
 		Off off;
 		if (!seenE.insert(id).second) return;
 		{ Lib on; d.accept(e, *this, m); }
-		elemRec(o, id, e);
+		elemRec(o, id, e); walkElem(d, e);
 	}
 	void visit(const TheoryData& d, const TheoryAtom& a) override {
 		Off off;
 		{ Lib on; d.accept(a, *this, m); }
-		print(rec, a);
+		print(rec, a); walkAtom(d, a);
 	}
 };
 
@@ -112,20 +247,21 @@ static void dump(Obs& o, const TheoryData& d, const IdVec& probes) {
 		o.add(d.hasTerm(p) ? 1 : 0); o.add(d.isNewTerm(p) ? 1 : 0);
 		const TheoryTerm* t = 0;
 		int e = guarded([&] { t = &d.getTerm(p); });
-		if (e) { o.add(-e); } else { print(rec, p, *t); termInfo(o, *t); checkTerm(*t); }
+		if (e) { o.add(-e); } else { print(rec, p, *t); termInfo(o, *t); checkTerm(*t); walkArgs(d, *t); }
 		o.add(d.hasElement(p) ? 1 : 0); o.add(d.isNewElement(p) ? 1 : 0);
 		const TheoryElement* x = 0;
 		e = guarded([&] { x = &d.getElement(p); });
-		if (e) { o.add(-e); } else { elemRec(o, p, *x); }
+		if (e) { o.add(-e); } else { elemRec(o, p, *x); walkElem(d, *x); }
 	}
 	o.add((ll)d.numAtoms());
 	if (d.end() - d.begin() != (std::ptrdiff_t)d.numAtoms()) die("begin()/end()/numAtoms() inconsistent");
 	for (TheoryData::atom_iterator it = d.begin(); it != d.end(); ++it) {
-		print(rec, **it);
+		print(rec, **it); walkAtom(d, **it);
 		if ((*it)->end() - (*it)->begin() != (std::ptrdiff_t)(*it)->size()) die("atom size inconsistent");
 	}
 	o.add((ll)(d.currBegin() - d.begin()));
 	o.add(g_n);
+	o.add((ll)g_walk); g_walk = 0;   // which walks over the public iterator adaptors differed from the direct view (0 = none)
 }
 
 // ---- provenance of arguments -------------------------------------------------------------------------------------
@@ -192,10 +328,11 @@ static int aliasMode(const Case& c) {
 
 int main() {
 	Case c; Obs o;
+	g_foreign = new TheoryData();   // g_lib is off
 	while (readCase(c)) {
 		IdVec probes;
 		{ size_t np = (size_t)c.next(); for (size_t i = 0; i != np; ++i) probes.push_back((Id_t)c.next()); }
-		g_n = 0;
+		g_n = 0; g_walk = 0;
 		TheoryData* d = new TheoryData();   // g_lib is off: the Data block itself is not counted
 		Own own(*d, aliasMode(c));
 		auto ids = [&](IdVec& v) { size_t n = (size_t)c.next(); v.clear(); for (size_t i = 0; i != n && c.more(); ++i) v.push_back((Id_t)c.next()); };
